@@ -220,9 +220,13 @@ Definition dayofyear (month day : Z) : res Z :=
     let? r := chk32 (nth (Z.to_nat month) [0; 0; 31; 59; 90; 120; 151; 181; 212; 243; 273; 304; 334] 0 + day) in
     Ok r.
 
-(* c_dateutils_add1month(int date[3]) *)
-Definition add1month (date : list Z) : step (list Z) :=
+(* c_dateutils_add1month(int date[3]); [fx]: the repaired code returns an error instead of
+   incrementing the year INT_MAX *)
+Definition add1month (fx : bool) (date : list Z) : step (list Z) :=
   let! m := rd "date" 0 date 1 in
+  let! y0 := rd "date" 0 date 0 in
+  if fx && negb (m <? 12) && (y0 =? 2147483647) then Ret 1 date
+  else
   let! date := (if m <? 12 then
                   let? m1 := chk32 (m + 1) in wr "date" date 1 m1
                 else
@@ -240,7 +244,7 @@ Definition add1month (date : list Z) : step (list Z) :=
     else Ret 0 date.
 
 (* c_dateutils_add1day(int date[3]) *)
-Definition add1day (date : list Z) : step (list Z) :=
+Definition add1day (fx : bool) (date : list Z) : step (list Z) :=
   let! y := rd "date" 0 date 0 in
   let! m := rd "date" 0 date 1 in
   let! nbday := daysinmonth y m in
@@ -257,8 +261,10 @@ Definition add1day (date : list Z) : step (list Z) :=
         let! m1 := chk32 (m + 1) in
         let! date := wr "date" date 1 m1 in Ret 0 date
       else
-        let! date := wr "date" date 1 1 in
         let! y := rd "date" 0 date 0 in
+        if fx && (y =? 2147483647) then Ret 1 date
+        else
+        let! date := wr "date" date 1 1 in
         let! y1 := chk32 (y + 1) in
         let! date := wr "date" date 0 y1 in Ret 0 date
     else Ret 1 date.
